@@ -13,8 +13,19 @@ HELP = ("[b] break       show breakpoints\n[b] break NUM   set/unset breakpoint 
 WORDS = ["next", "n", "previous", "p", "run", "r", "state", "s", "break", "b", "help", "h", "", "bogus", "nxt", "statee", "exit "]
 
 
+def exit_both(rng):
+    """writes to stdout and to stderr, then exits through stack 1 or stack 2"""
+    a, b = rng.choice([66, 67, 72]), rng.choice([69, 70, 33])
+    ex = rng.choice(["흑. 항", "흑.. 핫"])
+    parts = ["형" + "." * a, "항.", "형" + "." * b, "항..", "형..", "항..."]
+    rng.shuffle(parts) if False else None
+    return " ".join(parts + [ex])
+
+
 def gen_program(rng):
     r = rng.random()
+    if r < 0.08:
+        return exit_both(rng)
     if r < 0.15:
         return G.count_loop(rng.choice([2, 3, 4]))
     if r < 0.5:
@@ -28,6 +39,16 @@ def gen_program(rng):
 
 
 def gen_script(rng, ncmds):
+    if rng.random() < 0.2:
+        # a breakpoint somewhere, then `run` several times (a breakpoint inside a loop is met once per round), states in between
+        out = ["b %d" % rng.randrange(max(1, ncmds))]
+        if rng.random() < 0.5:
+            out.append(rng.choice(["n", "r"]))
+        for _ in range(rng.choice([2, 3, 5])):
+            out.append(rng.choice(["r", "run"]))
+            if rng.random() < 0.6:
+                out.append("s")
+        return out
     n = rng.choice([1, 3, 6, 10, 16])
     out = []
     for _ in range(n):
@@ -64,6 +85,32 @@ def listing(entries, fname):
     for i, l, c, raw in entries:
         out += "%d%s | %s:%d:%d%s  %s\n" % (i, " " * (idx_len - len(str(i))), fname, l, c, " " * (file_len - len(str(l)) - len(str(c))), raw)
     return out
+
+
+WILD = r"(?:(?!(?:> )*(?:\[stdout\] |\[stderr\] |current stack: |stack \d+: ))[^\n]*\n|> )*?"
+
+
+def loose_pattern(events, end, fname, path, cmds, states):
+    """a regular expression for the transcript in which only what the property talks about is fixed — the echoed commands,
+    the text shown for stdout/stderr, the displayed states — and everything else (log lines, error wording, help text,
+    prompts) may be reworded; such lines can never look like a [stdout]/[stderr] record or a state dump"""
+    import re
+    txt = lambda f: "".join(chr(int(x)) for x in f.split(".")) if f else ""
+    pat = WILD
+    for ev in events:
+        seg = None
+        if ev.startswith("C:") and ev != "C:":
+            ids = [int(x) for x in ev[2:].split(".")] if ev[2:] else []
+            seg = listing([(i,) + cmds[i] for i in ids], fname)
+        elif ev.startswith("F:"):
+            _, o, e = ev.split(":")
+            seg = ("[stdout] " + txt(o) + "\n" if o else "") + ("[stderr] " + txt(e) + "\n" if e else "")
+        elif ev.startswith("S:"):
+            k = int(ev[2:])
+            seg = states[k] if k < len(states) else None
+        if seg:
+            pat += re.escape(seg) + WILD
+    return re.compile(pat + r"\Z", re.S)
 
 
 def render(events, end, fname, path, cmds, states):
@@ -164,7 +211,11 @@ def run(prop, tier, seed):
         want = render(events, end, "d%d.hyeong" % k, path, infos[k], states[k])
         want_cls = {"eof": "exit0", "quit": "exit0", "finished": "exit0", "exit0": "exit0", "exit1": "exit1"}.get(end, "exit1")
         if got != want or cls != want_cls:
-            # is it the program's output being lost / duplicated, or something else?
+            # not the exact transcript of the model: a reworded log/help/error line is not a violation as long as the
+            # echoed commands, the shown program text and the displayed states are exactly the expected ones
+            if cls == want_cls and loose_pattern(events, end, "d%d.hyeong" % k, path, infos[k], states[k]).match(got):
+                hist["cosmetic-difference"] += 1
+                continue
             fails.append((k, "transcript", got, want, cls, gerr))
     seen = set()
     for k, kind, got, want, cls, gerr in fails[:30]:
